@@ -17,57 +17,69 @@ ALL_CLAUSES = ["val", "sh", "const", "share", "base", "cr", "grad", "gshare", "n
 
 # ----------------------------------------------------------------------------- building blocks
 def stage_replay(out: core.Outcome, *, max_stmts, max_h, cases, alphabet, simulate=None, fields=replay.FIELDS):
-    """spec -> code.  TLC enumerates behaviours of RefGen; each is executed on the implementation."""
-    res = replay.enumerate_behaviours(max_stmts, max_h, cases, alphabet, simulate=simulate, seed=out.seed)
+    """spec -> code.  TLC enumerates behaviours of RefGen (one JVM per leaf case, output to scratch files); the
+    behaviours are replayed on the implementation by a pool of worker processes."""
+    import multiprocessing
+    import shutil
+    import tempfile
+
+    scratch = tempfile.mkdtemp(prefix="verif-gen-")
     tot_states = tot_dist = n_beh = n_ok = 0
     mism = collections.Counter()
-    for case in cases:
-        rc, o, wall = res[case]
-        stats = tlc.parse_stats(o)
-        if rc != 0 or (stats is None and not simulate):
-            if "is violated" in o:
-                out.machinery(f"RefGen design invariant violated (case {case}): {o[-1200:]}")
-            else:
-                out.machinery(f"RefGen TLC run failed (case {case}, rc={rc}): {o[-1200:]}")
-            continue
-        if stats:
-            tot_states += stats["generated"]
-            tot_dist += stats["distinct"]
-        behs, bad = replay.parse_behaviours(o)
-        if bad:
-            out.machinery(f"{bad} unparsable BEHAVIOUR lines (case {case})")
-        out.judged += len(behs)
-        for b in behs:
-            n_beh += 1
-            r = replay.compare(b, fields)
-            if r is None:
-                n_ok += 1
-                if n_ok <= 2:
-                    out.add_sample({"kind": "replayed_behaviour", "statements": [e["stmt"] for e in b]}, limit=4)
+    try:
+        res = replay.enumerate_to_files(max_stmts, max_h, cases, alphabet, scratch, simulate=simulate, seed=out.seed)
+        open_kfs = {k["key"]: k.get("clauses") for k in out.kfs if k["status"] == "open"}
+        tasks = []
+        for case in cases:
+            rc, path, wall = res[case]
+            with open(path, "rb") as f:
+                f.seek(max(0, os.path.getsize(path) - 20000))
+                tail = f.read().decode(errors="replace")
+            stats = tlc.parse_stats(tail)
+            if rc != 0 or (stats is None and not simulate):
+                if "is violated" in tail:
+                    out.machinery(f"RefGen design invariant violated (case {case}): {tail[-1200:]}")
+                else:
+                    out.machinery(f"RefGen TLC run failed (case {case}, rc={rc}): {tail[-1200:]}")
                 continue
-            line, field, h, pred, obs = r
-            if line == "out_of_model":
-                mism["out_of_model"] += 1
-                continue
-            if line == "np_model_mismatch":
-                mism["np_model_mismatch"] += 1
-                out.model_mismatches.append({"clause": "exc", "line": field, "program": [e["stmt"] for e in b]})
-                continue
-            kfs = set(b[line - 1]["proj"]["kf"]) if b[line - 1]["proj"] else set()
-            hit = None
-            for key in sorted(kfs):
-                k = out.open_kf(key)
-                if k is not None and field in k.get("clauses", [field]):
-                    hit = key
-            if hit:
-                out.kf_hit(hit)
-                mism["kf:" + hit] += 1
-                continue
-            mism["mismatch:" + field] += 1
-            out.violation({"kind": "replay", "program": [e["stmt"] for e in b], "failing_line": line, "field": field,
-                           "handle": h, "predicted": pred, "observed": obs},
-                          f"TLC-generated behaviour: implementation disagrees with spec at statement {line}, "
-                          f"field '{field}' of handle {h}: predicted {json.dumps(pred)[:200]} observed {json.dumps(obs)[:200]}")
+            if stats:
+                tot_states += stats["generated"]
+                tot_dist += stats["distinct"]
+            chunks, total = replay.chunk_offsets(path)
+            tasks += [(path, lo, hi, fields, open_kfs) for lo, hi in chunks]
+        nviol = 0
+        if tasks:
+            ctx = multiprocessing.get_context("fork")
+            with ctx.Pool(min(16, len(tasks))) as pool:
+                for r in pool.imap_unordered(replay.compare_chunk, tasks):
+                    if r["bad_lines"]:
+                        out.machinery(f"{r['bad_lines']} unparsable BEHAVIOUR lines")
+                    n_beh += r["n"]
+                    n_ok += r["ok"]
+                    out.judged += r["n"]
+                    mism["out_of_model"] += r["oom"]
+                    for m in r["npmm"]:
+                        mism["np_model_mismatch"] += 1
+                        out.model_mismatches.append(m or {"clause": "exc", "line": 0, "program": []})
+                    for k, v in r["kf"].items():
+                        mism["kf:" + k] += v
+                        for _ in range(v):
+                            out.kf_hit(k)
+                    if r["sample"] is not None:
+                        out.add_sample({"kind": "replayed_behaviour", "statements": r["sample"]}, limit=4)
+                    for v in r["viol"]:
+                        nviol += 1
+                        if v is None:
+                            out.violations.append("(further violations of this chunk not stored)")
+                            continue
+                        mism["mismatch:" + str(v["field"])] += 1
+                        out.violation({"kind": "replay", **v},
+                                      f"TLC-generated behaviour: implementation disagrees with spec at statement {v['failing_line']}, "
+                                      f"field '{v['field']}' of handle {v['handle']}: predicted {json.dumps(v['predicted'])[:200]} "
+                                      f"observed {json.dumps(v['observed'])[:200]}")
+        mism = collections.Counter({k: v for k, v in mism.items() if v})
+    finally:
+        shutil.rmtree(scratch, ignore_errors=True)
     cov = out.coverage
     cov["states"] = cov.get("states", 0) + tot_dist
     cov["transitions"] = cov.get("transitions", 0) + tot_states
